@@ -58,10 +58,11 @@ func VerifyEventSignatures(ctx context.Context, e PDU, verifier JSONVerifier, us
 		if err != nil {
 			return fmt.Errorf("invalid sender userID: %w", err)
 		}
-		if sender != nil {
-			serverName = sender.Domain()
-			needed[serverName] = struct{}{}
+		if sender == nil {
+			return fmt.Errorf("userID not found for sender %q", e.SenderID())
 		}
+		serverName = sender.Domain()
+		needed[serverName] = struct{}{}
 
 		// In room versions 1 and 2, we should also check that the server
 		// that created the event is included too. This is probably the
